@@ -57,6 +57,11 @@ NEEDS = {
  'C09_3': ('X.output of a service/aggregate no longer rejected when X is also listed in dependencies', 'a reachable target naming a non-build X both in dependencies and as X.output'),
  'C12_3': ('bare --clean deletes one checksums file per declared target and removes .zinoma only if empty', 'state of a target that is no longer declared (renamed) at the time of the full clean'),
  'C13_3': ('producers named both ways are filtered before their outputs are merged into the consumer\'s input', 'a consumer naming the same producer under dependencies and as X.output (same or imported project)'),
+ 'C14_3': ('import-key check moved into the recursive loader: once per project directory (first edge), not once per import edge', 'a project reached by two import edges, a later one under a wrong key (cycle back to the root: deterministic; diamond: order-dependent)'),
+ 'C15_3': ('a listed path lexically nested under another listed path of the same resource is not walked', 'a symlinked directory listed next to its parent, a `..` path, or a path inside .zinoma under a listed path'),
+ 'C16_3': ('watcher ignores the single-path halves of a rename (From / To events)', 'watch mode; a rename with only one end under the watcher: move in, move out, move between targets, temp file kept outside'),
+ 'C18_3': ('delete_saved_env_state sweeps every file whose name starts with the target name', 'two input-bearing targets whose names are in a strict prefix relation (app / app-docs); the shorter one executed or cleaned alone'),
+ 'C19_3': ('the list of names the command line accepts covers only the root and its direct imports', 'a project reached only through an import of an import, requested as project::target'),
 }
 rows = []
 for d in sorted(glob.glob('/verif/seeded/C*_*')):
